@@ -365,7 +365,7 @@ def run(ctx):
     def cg(b):
         return sorted({(callee_generic(t) or callee_of(t) or '') for x in P.with_closures(b) for pos, t in x.iter_calls()})
     ts = [c for c in cg(si) if 'to_string' in c or 'ToString' in c]
-    C.check(has(si, r'ToString>::to_string$|::to_string$') and has(si, r'EnumItem::to_str$'), 'C20-SIB-format', 'serialize_internal|std-formatters', 'CharacterData::serialize_internal no longer formats numbers with to_string / enums with to_str', '%s:%d' % (si.file, si.line),
+    C.check(has(si, r'ToString>::to_string$|::to_string$|fmt::rt::Argument::<.*>::new_display') and has(si, r'EnumItem::to_str$'), 'C20-SIB-format', 'serialize_internal|std-formatters', 'CharacterData::serialize_internal no longer formats numbers with to_string / enums with to_str', '%s:%d' % (si.file, si.line),
             sample={'fn': 'serialize_internal', 'formatters': ts[:4]})
     # both numeric kinds are formatted by the std formatter directly (f64: shortest text that parses back to the same value, sign and
     # infinities included); a hand-written number formatter in between is outside what std guarantees
@@ -377,6 +377,11 @@ def run(ctx):
                 for k_ in ('f64', 'u64'):
                     if k_ in ty:
                         fmt_types.add(k_)
+            # `write!(out, "{v}")` / `format!("{v}")`: the same Display implementation that to_string() runs, handed over as a format argument
+            if call_matches(t, r'fmt::rt::Argument::<.*>::new_display') and t['args'] and 'l' in t['args'][0]:
+                ty = (x.local_ty(t['args'][0]['l']) or '').replace('&', '').strip()
+                if ty in ('f64', 'u64'):
+                    fmt_types.add(ty)
     # ... and by nothing else: a literal text produced in the serializer (or in a helper it calls, which is inlined) in place of a formatted
     # number is a hand-written formatter (`if v.is_infinite() { "INF" }` loses the sign of -INF)
     lit_fmt = []
